@@ -154,6 +154,9 @@ def random_model(rng, family, nbodies, springs=True, moving=True, layout="random
             mm = bodies[b_]["m"]
             k = float(mm * rng.uniform(2.0, 8.0) ** 2)                 # sqrt(k/m) in [2, 8] rad/s
             spr.append({"a": a, "b": b_, "Ba": Ba, "Bb": Bb, "k": k, "l_ref": l0 if hanging else float(l0 * rng.uniform(0.7, 1.1))})
+            # every third spring in compliance form (the same conservative force, carried by a multiplier la_c); decided from
+            # the digits of k so that the random stream of the generator - and with it every other model - stays as it was
+            spr[-1]["compliance"] = int(k * 1e6) % 3 == 0
     model = {"family": family, "layout": layout, "g": g, "world": world, "bodies": bodies, "joints": joints, "springs": spr}
     return model, poses, vels
 
@@ -221,7 +224,7 @@ def build(model, states, t0=0.0):
     sobjs = []
     for k, s in enumerate(model["springs"]):
         tpi = TwoPointInteraction(sub(s["a"]), sub(s["b"]), B_r_CP1=np.array(s["Ba"], dtype=float), B_r_CP2=np.array(s["Bb"], dtype=float), name=f"tpi{k}")
-        so = Spring(tpi, s["k"], l_ref=s["l_ref"], compliance_form=False, name=f"spring{k}")
+        so = Spring(tpi, s["k"], l_ref=s["l_ref"], compliance_form=bool(s.get("compliance", False)), name=f"spring{k}")
         sobjs.append(so)
         system.add(so)
     return system, subs, jobjs, sobjs
